@@ -605,13 +605,13 @@ def evaluate__node_comparison(self: XPathToken, context: ta.ContextType = None) 
         -> ta.OneOrEmpty[bool]:
     symbol = self.symbol
 
-    left = [x for x in self[0].select(context)]
+    left = [x for x in self[0].select(copy(context))]
     if not left:
         return []
     elif len(left) > 1 or not isinstance(left[0], XPathNode):
         raise self[0].error('XPTY0004', f"left operand of {symbol!r} must be a single node")
 
-    right = [x for x in self[1].select(context)]
+    right = [x for x in self[1].select(copy(context))]
     if not right:
         return []
     elif len(right) > 1 or not isinstance(right[0], XPathNode):
